@@ -5,6 +5,7 @@ import (
 	"fmt"
 	"math/big"
 	"strings"
+	"time"
 
 	ethcomm "github.com/ethereum/go-ethereum/common"
 	ethtypes "github.com/ethereum/go-ethereum/core/types"
@@ -486,8 +487,24 @@ func (r *c42Run) preExec(boundary bool) {
 			default:
 				c.Probe("pre_waited_for_commit")
 				skipCompare = true
+				if t.Bool() {
+					// the disk call the commit is stopped at is slow: seconds pass before it returns
+					d := time.Duration(1+t.Choose(30)) * time.Second
+					c.Fault("slow_disk_call")
+					time.Sleep(d)
+					world.Quiesce()
+				}
+				gaveUp := false
+				select {
+				case <-r.done: // the waiting pre-execution gave up
+					gaveUp = true
+					c.Probe("pre_gave_up_waiting")
+				default:
+				}
 				r.whileBlocked()
-				<-r.done
+				if !gaveUp {
+					<-r.done
+				}
 			}
 		} else {
 			<-r.done
@@ -667,7 +684,14 @@ func (r *c42Run) commit(txs []*types.Transaction, nBoundary int) store.ExecuteRe
 		// batch), a second goroutine pre-executes, then the commit goes on
 		reached, resume := r.m.Disk.ArmPause(1 + c.Tape.Choose(16))
 		errCh := make(chan error, 1)
-		go func() { errCh <- r.m.Store.SubmitBlock(blk, nil, res) }()
+		go func() {
+			defer func() {
+				if x := recover(); x != nil {
+					errCh <- fmt.Errorf("SubmitBlock panics: %v", x)
+				}
+			}()
+			errCh <- r.m.Store.SubmitBlock(blk, nil, res)
+		}()
 		world.Quiesce()
 		select {
 		case <-reached:
@@ -679,7 +703,8 @@ func (r *c42Run) commit(txs []*types.Transaction, nBoundary int) store.ExecuteRe
 		}
 		resume()
 		if err := <-errCh; err != nil {
-			c.Harness("main refuses block %d: SubmitBlock (paused inside): %v", h, err)
+			// the same block is accepted by the twin below: only the pre-execution inside the commit differs
+			c.Fail("commit-fails-after-preexec-inside", "submit", "block %d: SubmitBlock that was stalled at a disk call while a pre-execution ran ends with: %v", h, err)
 		}
 	} else if err := r.m.Store.SubmitBlock(blk, nil, res); err != nil {
 		c.Harness("main refuses block %d: SubmitBlock: %v", h, err)
@@ -696,10 +721,13 @@ func (r *c42Run) commit(txs []*types.Transaction, nBoundary int) store.ExecuteRe
 
 func (r *c42Run) compareTwin(when, sig string) {
 	c := r.c
-	ms, err := r.m.Snap(true)
-	c.Must(err, "snapshot main")
 	ws, err := r.w.Snap(true)
 	c.Must(err, "snapshot twin")
+	ms, err := r.m.Snap(true)
+	if err != nil {
+		// the twin, which got the same blocks and no pre-execution, can be read
+		c.Fail("twin-diverges", sig+"/unreadable", "%s: the ledger that served pre-executions cannot be read back (%v); the twin at height %d can", when, err, ws.Height)
+	}
 	if ms.Height != ws.Height || ms.Hash != ws.Hash {
 		c.Fail("twin-diverges", sig, "%s: main at height %d (%x), twin at %d (%x)", when, ms.Height, ms.Hash[:4], ws.Height, ws.Hash[:4])
 	}
